@@ -181,6 +181,43 @@ pub open spec fn key_fields_ok(key: CoseKey, m: Seq<(Value, Value)>, n: int) -> 
     && (forall |i: int| 0 <= i < n && #[trigger] label_of(m[i].0) == Some(Label::Int(5)) ==> m[i].1 == Value::Bytes(key.base_iv))
     && ((forall |i: int| 0 <= i < n ==> #[trigger] label_of(m[i].0) != Some(Label::Int(5))) ==> key.base_iv@.len() == 0)
 }
+/// C12 (encode): the extra parameters neither repeat a label nor name a populated typed field
+pub open spec fn key_typed_present(k: CoseKey, l: Label) -> bool {
+    l == Label::Int(1) || (l == Label::Int(2) && k.key_id@.len() > 0) || (l == Label::Int(3) && k.alg is Some)
+    || (l == Label::Int(4) && k.key_ops@.len() != 0) || (l == Label::Int(5) && k.base_iv@.len() > 0)
+}
+pub open spec fn key_params_ok(k: CoseKey) -> bool {
+    (forall |i: int, j: int| 0 <= i < j < k.params@.len() ==> (#[trigger] k.params@[i]).0 != (#[trigger] k.params@[j]).0)
+    && (forall |i: int| 0 <= i < k.params@.len() ==> !key_typed_present(k, (#[trigger] k.params@[i]).0))
+}
+/// the typed part of an encoded key map
+pub open spec fn key_head_ok(k: CoseKey, m: Seq<(Value, Value)>) -> bool {
+    let o_alg = key_enc_off_alg(k); let o_ops = key_enc_off_ops(k); let o_biv = key_enc_off_biv(k); let o_p = key_enc_off_p(k);
+    m.len() == o_p
+    && label_of(m[0].0) == Some(Label::Int(1))
+    && (k.key_id@.len() > 0 ==> label_of(m[1].0) == Some(Label::Int(2)))
+    && (k.alg is Some ==> label_of(m[o_alg].0) == Some(Label::Int(3)))
+    && (k.key_ops@.len() != 0 ==> label_of(m[o_ops].0) == Some(Label::Int(4)))
+    && (k.base_iv@.len() > 0 ==> label_of(m[o_biv].0) == Some(Label::Int(5)))
+}
+pub proof fn lemma_key_head_labels(k: CoseKey, m: Seq<(Value, Value)>)
+    requires key_head_ok(k, m),
+    ensures
+        forall |i: int| 0 <= i < m.len() ==> (#[trigger] label_of(m[i].0)) is Some,
+        forall |x: Label| (exists |i: int| 0 <= i < m.len() && #[trigger] label_of(m[i].0) == Some(x)) <==> key_typed_present(k, x),
+{
+    let o_alg = key_enc_off_alg(k); let o_ops = key_enc_off_ops(k); let o_biv = key_enc_off_biv(k); let o_p = key_enc_off_p(k);
+    assert forall |i: int| 0 <= i < m.len() implies ((#[trigger] label_of(m[i].0)) matches Some(l) && key_typed_present(k, l)) by {
+        if i == 0 {} else if k.key_id@.len() > 0 && i == 1 {} else if k.alg is Some && i == o_alg {} else if k.key_ops@.len() != 0 && i == o_ops {} else if k.base_iv@.len() > 0 && i == o_biv {} else { assert(false); }
+    }
+    assert forall |x: Label| key_typed_present(k, x) implies exists |i: int| 0 <= i < m.len() && #[trigger] label_of(m[i].0) == Some(x) by {
+        if x == Label::Int(1) { assert(label_of(m[0].0) == Some(x)); }
+        else if x == Label::Int(2) { assert(label_of(m[1].0) == Some(x)); }
+        else if x == Label::Int(3) { assert(label_of(m[o_alg].0) == Some(x)); }
+        else if x == Label::Int(4) { assert(label_of(m[o_ops].0) == Some(x)); }
+        else { assert(label_of(m[o_biv].0) == Some(x)); }
+    }
+}
 pub open spec fn b2i(b: bool) -> int { if b { 1 } else { 0 } }
 pub open spec fn key_enc_off_alg(k: CoseKey) -> int { 1 + b2i(k.key_id@.len() > 0) }
 pub open spec fn key_enc_off_ops(k: CoseKey) -> int { key_enc_off_alg(k) + b2i(k.alg is Some) }
@@ -204,7 +241,10 @@ impl AsCborValue for CoseKey {«
             && (value matches Value::Map(mv) ==> (r is Ok <==> key_wf(mv@)))
             && (value matches Value::Map(mv) ==> (r matches Ok(key) ==> key.params@ == params_of(mv@) && key_fields_ok(key, mv@, mv@.len() as int)))
     }
-    open spec fn enc_rel(self, r: Result<Value>) -> bool { r matches Ok(v) ==> (v matches Value::Map(mv) && key_enc_ok(self, mv@)) }
+    open spec fn enc_rel(self, r: Result<Value>) -> bool {
+        (r is Ok <==> key_params_ok(self))
+        && (r matches Ok(v) ==> (v matches Value::Map(mv) && key_enc_ok(self, mv@)))
+    }
     #[verifier::loop_isolation(false)]»
     fn from_cbor_value(value: Value) ->« (r:» Result<Self>«)» {«
         broadcast use axiom_question_mark_uses_from;
@@ -336,6 +376,7 @@ impl AsCborValue for CoseKey {«
         broadcast use axiom_question_mark_uses_from;
         broadcast use vstd::std_specs::btree::group_btree_axioms;
         broadcast use axiom_derived_clone_label;
+        broadcast use crate::util::axiom_iter_enc_err_btreeset;
         proof { lemma_label_obeys_cmp(); lemma_reglabel_obeys_cmp::<iana::KeyOperation>(); }
         let ghost k0 = self;»
         let mut map: Vec<(Value, Value)> = vec![(KTY.to_cbor_value()?, self.kty.to_cbor_value()?)];
@@ -375,20 +416,42 @@ impl AsCborValue for CoseKey {«
         }«
         let ghost head0 = map@;
         let ghost o_p = key_enc_off_p(k0);
-        proof { assert(head0.len() == o_p); }»
+        proof { assert(head0.len() == o_p); assert(key_head_ok(k0, head0)); lemma_key_head_labels(k0, head0); }»
         // Labels already emitted for the named fields also count as seen.
         let mut seen = BTreeSet::new();
-        for (label, _value) in map.iter() {
+        for (label, _value) in« it0:» map.iter()«
+            invariant
+                k0 == self, map@ == head0,
+                vstd::laws_cmp::obeys_cmp::<Label>(),
+                forall |i: int| 0 <= i < head0.len() ==> (#[trigger] label_of(head0[i].0)) is Some,
+                forall |x: Label| seen@.contains(x) <==> exists |i: int| 0 <= i < it0.index@ && #[trigger] label_of(head0[i].0) == Some(x),» {«
+            broadcast use axiom_question_mark_uses_from;
+            broadcast use vstd::std_specs::btree::group_btree_axioms;
+            proof { assert(*label == head0[it0.index@].0); }»
             seen.insert(Label::from_cbor_value(label.clone())?);
-        }
+        }«
+        let ghost ps = self.params@;»
         for (label, value) in« it:» self.params«
             invariant
+                k0 == self, ps == k0.params@, ps == self.params@,
+                vstd::laws_cmp::obeys_cmp::<Label>(),
+                forall |x: Label| seen@.contains(x) <==> (key_typed_present(k0, x) || exists |i: int| 0 <= i < it.index@ && (#[trigger] ps[i]).0 == x),
+                forall |i: int, j: int| 0 <= i < j < it.index@ ==> (#[trigger] ps[i]).0 != (#[trigger] ps[j]).0,
+                forall |i: int| 0 <= i < it.index@ ==> !key_typed_present(k0, (#[trigger] ps[i]).0),
                 0 <= it.index@ <= k0.params@.len(),
                 map@.len() == o_p + it.index@,
                 map@.subrange(0, o_p) == head0,
                 forall |i: int| o_p <= i < map@.len() ==> label_of(#[trigger] map@[i].0) == Some(k0.params@[i - o_p].0) && map@[i].1 == k0.params@[i - o_p].1,» {«
+            broadcast use axiom_question_mark_uses_from;
+            broadcast use vstd::std_specs::btree::group_btree_axioms;
+            broadcast use axiom_derived_clone_label;
+            let ghost n = it.index@;
             proof { assert(label == k0.params@[it.index@].0 && value == k0.params@[it.index@].1); }»
-            if seen.contains(&label) {
+            if seen.contains(&label) {«
+                proof {
+                    if key_typed_present(k0, label) { assert(!key_params_ok(k0)); }
+                    else { let i = choose |i: int| 0 <= i < n && (#[trigger] ps[i]).0 == label; assert(ps[i].0 == ps[n].0); assert(!key_params_ok(k0)); }
+                }»
                 return Err(CoseError::DuplicateMapKey);
             }
             seen.insert(label.clone());«
